@@ -291,6 +291,7 @@ def cases(tier, seed):
     nparts = 32 if tier == "quick" else 64
     for p in range(nparts):
         out.append({"kind": "lattice", "part": p, "nparts": nparts, "sample_mod": 8 if tier == "quick" else 1, "seed": seed * 100 + p})
+    out.append({"kind": "probe"})
     for k in range(16):
         out.append({"kind": "random", "n": 40 if tier == "quick" else 1300, "seed": seed * 100 + k})
     for k in range(16):
@@ -300,7 +301,19 @@ def cases(tier, seed):
 
 def run_case(case):
     k = case["kind"]
-    if k == "lattice":
+    if k == "probe":
+        # deterministic probes: the open known finding (plausible box inside the bound margin) and a few pinned cells
+        cells, viol, n = {}, {}, 0
+        for args in ((None, [1.0], [2.0], [1.0], [1.0 + 2.0 ** -52]), ([0.001], [0.0], [10.0], [0.0], [0.005]), (None, [-3.0], [5.0], None, None),
+                     ([0.0], [-np.inf], [np.inf], [-1.0], [1.0]), ([6.0], [-3.0], [5.0], None, None), (None, [-3.0], [np.inf], [-1.0], [1.0])):
+            cell, key, det = judge(*[None if a is None else np.array(a) for a in args])
+            n += 1
+            cells[str(cell)] = cells.get(str(cell), 0) + 1
+            if key:
+                viol.setdefault(key, dict(det or {}, x0=args[0], lb=args[1], ub=args[2], plb=args[3], pub=args[4]))
+                viol[key]["_n"] = viol[key].get("_n", 0) + 1
+        cnt = {"C08.probe_constructor_calls": n}
+    elif k == "lattice":
         n, cells, viol = lattice_part(case["part"], case["nparts"], case["sample_mod"], case["seed"])
         cnt = {"C08.lattice_constructor_calls": n}
     elif k == "random":
